@@ -137,7 +137,10 @@ def check_all(ctx, cls):
         ctx.undecided("C17 SCENARIO", cls.name, cls.module.relpath, "fit+predict never returns", found=[(p.outcome, p.exc.exc_name if p.exc else "") for p in paths][:4])
         return
     for p in paths:
-        if p.outcome == "raise" and p.exc.func is not None and p.exc.func.name != "__init__":
+        # a raise during construction (in __init__ or in a validation helper it calls) happens before the scenario's
+        # init-done marker: that is the constructor rejecting a configuration, not fit / predict failing
+        constructed = any(e.kind == "marker" and e.data.get("name") == "init-done" for e in p.events)
+        if p.outcome == "raise" and p.exc.func is not None and p.exc.func.name != "__init__" and constructed:
             ctx.violation("C17 SCENARIO", "raises", p.exc.func.loc(p.exc.node), "fit/predict raises for a valid configuration", found=p.exc.exc_name)
     # ---------------------------------------------------------- CLONE-DISCIPLINE
     rule = "C17.a CLONE-DISCIPLINE"
